@@ -16,6 +16,10 @@ CONSTANTS
   Defect = "add-skips-last-index"
   AllowBadConfig = FALSE
   Emit = FALSE
+  Faults <- NoFaults
+  QS <- NoQ
+  Ops <- AllOps
+  Big = FALSE
 VIEW MCView
 INVARIANTS NoFalseNegative
 CHECK_DEADLOCK FALSE
